@@ -250,7 +250,7 @@ func c01SetR(r *refcpu.Regs, i int, v uint8, pokes *[]cpuPoke) {
 type c01Enum struct {
 	name  string
 	desc  string
-	slots int                                                  // partition units
+	slots int                                                               // partition units
 	each  func(slot int, mx *cpuMix, emit func(c cpuCase, nontrivial bool)) // emits all cases of a slot
 }
 
